@@ -113,7 +113,23 @@ def lr_grammars(pp):
         rec <<= pp.QuotedString('"').set_parse_action(reparse(lambda: sub, via))
         return dict(rec=rec, sub=sub)
 
-    return {"lrrows": lrrows, "lrwrap": lrwrap}
+    def mutual(via):  # two mutually recursive rules + a left-recursive one; threads enter at DIFFERENT rules
+        num = pp.Word(pp.nums)
+        expr, stmt, block = pp.Forward(), pp.Forward(), pp.Forward()
+        expr <<= expr + "+" + num | num
+        stmt <<= pp.Keyword("do") + block | pp.Keyword("print") + expr
+        block <<= pp.Group("{" + pp.ZeroOrMore(stmt) + "}")
+        return dict(stmt=stmt, block=block, expr=expr)
+
+    def mutual3(via):  # three rules reaching each other
+        num = pp.Word(pp.nums)
+        value, lst, dct = pp.Forward(), pp.Forward(), pp.Forward()
+        value <<= lst | dct | num
+        lst <<= pp.Group("[" + pp.ZeroOrMore(value) + "]")
+        dct <<= pp.Group("{" + pp.ZeroOrMore(pp.Word(pp.alphas) + ":" + value) + "}")
+        return dict(value=value, lst=lst, dct=dct)
+
+    return {"lrrows": lrrows, "lrwrap": lrwrap, "mutual": mutual, "mutual3": mutual3}
 
 
 # thread specs: (target grammar, top-level entry, input)
@@ -158,6 +174,17 @@ THREADS = {
         "same3": [("rec", "parse", '"1,2,3"')] * 3,
         "mixed": [("rec", "search", 'x "1,2"'), ("sub", "parse", "4,5")],
     },
+    # mutually recursive Forwards entered at DIFFERENT rules (no nested entry calls; `via` is unused): with one lock
+    # per Forward the acquisition order would follow the grammar traversal
+    "mutual": {
+        "ends2": [("stmt", "parse", "do { print 1+2 }"), ("block", "parse", "{ do { print 3+4 } }")],
+        "ends3": [("block", "parse", "{ print 1 }"), ("stmt", "parse", "do { do { } }"), ("expr", "parse", "1+2+3")],
+        "same2": [("stmt", "parse", "do { print 1+2 }")] * 2,
+    },
+    "mutual3": {
+        "ends2": [("lst", "parse", "[ 1 { a : 2 } ]"), ("dct", "parse", "{ b : [ 3 ] }")],
+        "ends3": [("value", "parse", "[ { a : [ ] } ]"), ("dct", "parse", "{ c : [ 4 ] }"), ("lst", "parse", "[ 5 ]")],
+    },
 }
 
 MODES = [("off",), ("packrat", 0), ("packrat", 2), ("packrat", 128), ("packrat", None)]
@@ -173,7 +200,8 @@ def strip_markers(trace):
 
 def lock_prog(trace, tid):
     """the lock operations thread `tid` performed, in order"""
-    return [Sym("prog")] + [ev for t, ev in trace if t == tid and ev in ("acqP", "relP", "acqR", "relR")]
+    return [Sym("prog")] + [ev for t, ev in trace if t == tid and isinstance(ev, str) and not isinstance(ev, list)
+                            and ev[:3] in ("acq", "rel")]
 
 
 class NestedCase:
@@ -209,7 +237,7 @@ class NestedCase:
                 self.learn_ok = False
 
         for t, fn in enumerate(self.fns):
-            with S.Session(self.pp, self.mode, self.I) as ses:
+            with S.Session(self.pp, self.mode, self.I, exprs=self.g.values()) as ses:
                 out = ses.run_serial(fn)
             self.serial.append(out)
             self.serial_progs.append(lock_prog(ses.trace, -1))
@@ -257,7 +285,7 @@ class NestedCase:
             dumps(x) for x in (sz, self.table_sexp(), self.roots_sexp(), [Sym("gran"), Sym(gran)], extra))
 
     def forced(self, gran, sched=None, chooser=None):
-        with S.Session(self.pp, self.mode, self.I, gran=gran) as ses:
+        with S.Session(self.pp, self.mode, self.I, gran=gran, exprs=self.g.values()) as ses:
             outs, status = ses.run_controlled(self.fns, sched=sched, chooser=chooser)
         return ses, outs, status
 
@@ -333,7 +361,7 @@ def resets_first(n, gran):
 
 
 def steps_alone(c, t, gran):
-    with S.Session(c.pp, c.mode, c.I, gran=gran) as ses:
+    with S.Session(c.pp, c.mode, c.I, gran=gran, exprs=c.g.values()) as ses:
         ses.run_controlled([c.fns[t]])
     return len(ses.sched_done)
 
@@ -375,6 +403,9 @@ def case_specs(ctx):
         for role, th in THREADS[gname].items():
             for via in (rng.sample(VIAS, 2) if thorough else rng.sample(VIAS, 1)):
                 out.append((("lr",), gname, via, th))
+    for gname in ("mutual", "mutual3"):
+        for role, th in THREADS[gname].items():
+            out.append((("lr",), gname, "parse", th))
     return out
 
 
@@ -451,7 +482,7 @@ def leg_nested(ctx, C, pp, force_search=False):
             pre = resets_first(n, "lock") if resets1st else []
             firsts = range(n) if (ctx.tier == "thorough" or force_search) else [0]
             for f in firsts:
-                if c.threads[f][0] != "rec":
+                if c.threads[f][0] == "sub":
                     continue
                 total = steps_alone(c, f, "lock")
                 orders = [list(range(n))] + ([list(reversed(range(n)))] if n > 2 else [])
